@@ -101,6 +101,29 @@ func vpH_q_MajCommit_sub4() { vpMajorityCommitted(4, true) }
 func vpH_q_MajCommit_5()    { vpMajorityCommitted(5, false) }
 func vpH_q_MajCommit_9()    { vpMajorityCommitted(9, false) }
 
+// exactly eight voters (the smallest size that leaves the stack buffer of
+// CommittedIndex), every one of them with an acknowledged index except
+// possibly the last; acknowledged indexes range over 0..7 only
+func vpH_q_MajCommit_8() {
+	c := MajorityConfig{}
+	var ids []uint64
+	a := vpAcks{l: mapAckIndexer{}, val: make([]uint64, 10), present: make([]bool, 10)}
+	for id := uint64(1); id <= 8; id++ {
+		c[id] = struct{}{}
+		ids = append(ids, id)
+		if id < 8 || vpChoose(2) == 1 {
+			v := vpU64()
+			vpAssume(v < 8) // (fully symbolic 64-bit values at this size are beyond the solver: 60 s per query)
+			a.l[id] = Index(v)
+			a.val[id] = v
+			a.present[id] = true
+		}
+	}
+	got := uint64(c.CommittedIndex(a.l))
+	vpObserve("committed", got)
+	vpSpecCommitted(ids, a, got, "C12/maj-commit")
+}
+
 func vpMinU(a, b uint64) uint64 { return vpIte(a < b, a, b) }
 
 func vpJointCommitted(n int) {
